@@ -87,128 +87,18 @@ pub fn apply(op: &Op) {
             }
         }
         Op::MakeMut(sel) => {
-            let n = wd.model.borrow().roots.len();
-            let Some(i) = pick(*sel, n) else { return noop() };
-            let t = wd.model.borrow().roots[i];
-            let (strong, weak, had_rec, next) = {
-                let m = wd.model.borrow();
-                (m.strong(t), m.weak(t), m.has_records(t), m.n() as Oid)
-            };
-            if next as usize >= crate::interp::MAX_OBJECTS {
-                return noop();
-            }
-            let shared_branch = strong != 1;
-            let move_branch = strong == 1 && weak != 0;
-            wd.makemut_new.set(NONE);
-            if shared_branch {
-                wd.makemut.set(Some((i, t)));
-            }
-            // the RcBox allocated by make_mut belongs to the next object id
-            let prev = arena::set_ctx(if shared_branch || move_branch { CtxKind::New } else { CtxKind::Consume }, next, 0);
-            // The handle is mutably borrowed by make_mut for the duration of the
-            // call: nothing else (destructor scripts!) can name it.  Model it as an
-            // in-flight handle (like a raw pointer: it exists, it is reachable, it
-            // has no path) and take it out of the root lists.
-            let mut lr = wd.roots.borrow_mut().remove(i);
-            {
-                let mut m = wd.model.borrow_mut();
-                m.roots.remove(i);
-                m.raws.push(t);
-            }
-            wd.raws.borrow_mut().push(std::ptr::null());
-            let res = std::panic::catch_unwind(std::panic::AssertUnwindSafe(|| {
-                let r: &mut Node = lib(|| Rc::make_mut(&mut *lr.h));
-                let id_seen = r.id.get();
-                if move_branch {
-                    // rename the moved value in place through the &mut we were given
-                    r.rename(next);
+            if *sel & 1 == 1 && wd.cfg.slot_consume {
+                // any handle instance, also one stored inside a value
+                let hs = wd.model.borrow().handles();
+                let Some(k) = pick(*sel, hs.len()) else { return noop() };
+                match hs[k].0 {
+                    HLoc::Root(i) => make_mut_root(i),
+                    HLoc::Slot(o, j) => make_mut_slot(o, j),
                 }
-                id_seen
-            }));
-            let _t = arena::track_off();
-            arena::restore_ctx(prev);
-            wd.makemut.set(None);
-            wd.raws.borrow_mut().pop();
-            wd.model.borrow_mut().raws.pop();
-            let (new_addr, new_vaddr) = (Rc::__verif_addr(&lr.h), Rc::as_ptr(&lr.h) as usize);
-            let old_addr = wd.model.borrow().objs[t as usize].addr;
-            let put_back = |lr: LoggedRc, target: Oid| {
-                let mut lr = lr;
-                lr.target = target;
-                let k = i.min(wd.model.borrow().roots.len());
-                wd.model.borrow_mut().roots.insert(k, target);
-                wd.roots.borrow_mut().insert(k, lr);
-            };
-            let id_seen = match res {
-                Ok(id) => id,
-                Err(e) => {
-                    // a destructor panicked inside make_mut: only possible while the
-                    // clone branch drops the caller's old handle.  The caller's handle
-                    // must now be the fresh clone (C11: nothing the program holds is
-                    // corrupted); put it back and let the panic reach the op handler.
-                    let new = wd.makemut_new.get();
-                    if shared_branch && new != NONE {
-                        on_hdrop_end(t, true);
-                        {
-                            let mut m = wd.model.borrow_mut();
-                            m.objs[new as usize].addr = new_addr;
-                            m.objs[new as usize].value_addr = new_vaddr;
-                        }
-                        wd.addr2oid.borrow_mut().push((new_addr, new));
-                        count(ctr::OBJECTS, 1);
-                        put_back(lr, new);
-                    } else {
-                        put_back(lr, t);
-                    }
-                    std::panic::resume_unwind(e);
-                }
-            };
-            if shared_branch {
-                let new = wd.makemut_new.get();
-                if new == NONE || new_addr == old_addr {
-                    put_back(lr, t);
-                    violate(View::Consume, &format!("make_mut on shared object {} did not clone the value into a new allocation", t));
-                }
-                // close the bracket of the implicit drop of the old handle
-                on_hdrop_end(t, false);
-                {
-                    let mut m = wd.model.borrow_mut();
-                    m.objs[new as usize].addr = new_addr;
-                    m.objs[new as usize].value_addr = new_vaddr;
-                }
-                wd.addr2oid.borrow_mut().push((new_addr, new));
-                put_back(lr, new);
-                if id_seen != new {
-                    violate(View::Consume, "make_mut returned a reference to the wrong value");
-                }
-                count(ctr::OBJECTS, 1);
-            } else if move_branch {
-                if new_addr == old_addr {
-                    put_back(lr, t);
-                    violate(View::Consume, &format!("make_mut on sole owner {} with Weak handles did not disassociate them", t));
-                }
-                if id_seen != t {
-                    violate(View::Consume, "make_mut moved the wrong value");
-                }
-                if wd.model.borrow().objs[t as usize].st != St::Alive {
-                    violate(View::Consume, &format!("make_mut ran the destructor of the value it moved (object {})", t));
-                }
-                if had_rec {
-                    label(lab::CONSUME_LINKED);
-                }
-                let new = move_value(t, false, new_addr, new_vaddr);
-                assert_eq!(new, next);
-                wd.addr2oid.borrow_mut().push((new_addr, new));
-                put_back(lr, new);
-                count(ctr::OBJECTS, 1);
             } else {
-                put_back(lr, t);
-                if new_addr != old_addr || id_seen != t {
-                    violate(View::Consume, &format!("make_mut on unique object {} changed its allocation", t));
-                }
-                if had_rec {
-                    label(lab::CONSUME_LINKED);
-                }
+                let n = wd.model.borrow().roots.len();
+                let Some(i) = pick(*sel, n) else { return noop() };
+                make_mut_root(i);
             }
         }
         Op::GetMut(sel) => {
@@ -362,4 +252,179 @@ pub fn cleanup() {
         wd.model.borrow_mut().objs[id as usize].loose = false;
         drop(b);
     }
+}
+
+/// `Rc::make_mut` on root `i`.
+fn make_mut_root(i: usize) {
+    let wd = w();
+        let t = wd.model.borrow().roots[i];
+        let (strong, weak, had_rec, next) = {
+            let m = wd.model.borrow();
+            (m.strong(t), m.weak(t), m.has_records(t), m.n() as Oid)
+        };
+        if next as usize >= crate::interp::MAX_OBJECTS {
+            return noop();
+        }
+        let shared_branch = strong != 1;
+        let move_branch = strong == 1 && weak != 0;
+        wd.makemut_new.set(NONE);
+        if shared_branch {
+            wd.makemut.set(Some((i, t)));
+        }
+        // the RcBox allocated by make_mut belongs to the next object id
+        let prev = arena::set_ctx(if shared_branch || move_branch { CtxKind::New } else { CtxKind::Consume }, next, 0);
+        // The handle is mutably borrowed by make_mut for the duration of the
+        // call: nothing else (destructor scripts!) can name it.  Model it as an
+        // in-flight handle (like a raw pointer: it exists, it is reachable, it
+        // has no path) and take it out of the root lists.
+        let mut lr = wd.roots.borrow_mut().remove(i);
+        {
+            let mut m = wd.model.borrow_mut();
+            m.roots.remove(i);
+            m.raws.push(t);
+        }
+        wd.raws.borrow_mut().push(std::ptr::null());
+        let res = std::panic::catch_unwind(std::panic::AssertUnwindSafe(|| {
+            let r: &mut Node = lib(|| Rc::make_mut(&mut *lr.h));
+            let id_seen = r.id.get();
+            if move_branch {
+                // rename the moved value in place through the &mut we were given
+                r.rename(next);
+            }
+            id_seen
+        }));
+        let _t = arena::track_off();
+        arena::restore_ctx(prev);
+        wd.makemut.set(None);
+        wd.raws.borrow_mut().pop();
+        wd.model.borrow_mut().raws.pop();
+        let (new_addr, new_vaddr) = (Rc::__verif_addr(&lr.h), Rc::as_ptr(&lr.h) as usize);
+        let old_addr = wd.model.borrow().objs[t as usize].addr;
+        let put_back = |lr: LoggedRc, target: Oid| {
+            let mut lr = lr;
+            lr.target = target;
+            let k = i.min(wd.model.borrow().roots.len());
+            wd.model.borrow_mut().roots.insert(k, target);
+            wd.roots.borrow_mut().insert(k, lr);
+        };
+        let id_seen = match res {
+            Ok(id) => id,
+            Err(e) => {
+                // a destructor panicked inside make_mut: only possible while the
+                // clone branch drops the caller's old handle.  The caller's handle
+                // must now be the fresh clone (C11: nothing the program holds is
+                // corrupted); put it back and let the panic reach the op handler.
+                let new = wd.makemut_new.get();
+                if shared_branch && new != NONE {
+                    on_hdrop_end(t, true);
+                    {
+                        let mut m = wd.model.borrow_mut();
+                        m.objs[new as usize].addr = new_addr;
+                        m.objs[new as usize].value_addr = new_vaddr;
+                    }
+                    wd.addr2oid.borrow_mut().push((new_addr, new));
+                    count(ctr::OBJECTS, 1);
+                    put_back(lr, new);
+                } else {
+                    put_back(lr, t);
+                }
+                std::panic::resume_unwind(e);
+            }
+        };
+        if shared_branch {
+            let new = wd.makemut_new.get();
+            if new == NONE || new_addr == old_addr {
+                put_back(lr, t);
+                violate(View::Consume, &format!("make_mut on shared object {} did not clone the value into a new allocation", t));
+            }
+            // close the bracket of the implicit drop of the old handle
+            on_hdrop_end(t, false);
+            {
+                let mut m = wd.model.borrow_mut();
+                m.objs[new as usize].addr = new_addr;
+                m.objs[new as usize].value_addr = new_vaddr;
+            }
+            wd.addr2oid.borrow_mut().push((new_addr, new));
+            put_back(lr, new);
+            if id_seen != new {
+                violate(View::Consume, "make_mut returned a reference to the wrong value");
+            }
+            count(ctr::OBJECTS, 1);
+        } else if move_branch {
+            if new_addr == old_addr {
+                put_back(lr, t);
+                violate(View::Consume, &format!("make_mut on sole owner {} with Weak handles did not disassociate them", t));
+            }
+            if id_seen != t {
+                violate(View::Consume, "make_mut moved the wrong value");
+            }
+            if wd.model.borrow().objs[t as usize].st != St::Alive {
+                violate(View::Consume, &format!("make_mut ran the destructor of the value it moved (object {})", t));
+            }
+            if had_rec {
+                label(lab::CONSUME_LINKED);
+            }
+            let new = move_value(t, false, new_addr, new_vaddr);
+            assert_eq!(new, next);
+            wd.addr2oid.borrow_mut().push((new_addr, new));
+            put_back(lr, new);
+            count(ctr::OBJECTS, 1);
+        } else {
+            put_back(lr, t);
+            if new_addr != old_addr || id_seen != t {
+                violate(View::Consume, &format!("make_mut on unique object {} changed its allocation", t));
+            }
+            if had_rec {
+                label(lab::CONSUME_LINKED);
+            }
+        }
+}
+
+/// `Rc::make_mut` in place on handle `j` stored in the value of object `o`: for
+/// the duration of the call the handle is held like a root (moving a handle
+/// changes nothing for the library); afterwards it goes back into its slot,
+/// pointing at whatever allocation make_mut left it with.
+fn make_mut_slot(o: Oid, j: usize) {
+    let wd = w();
+    let owner_node: &'static Node = crate::interp::node_of(o);
+    let t = wd.model.borrow().objs[o as usize].slots[j];
+    if wd.model.borrow().strong(t) > 1 {
+        // clone branch: the stored handle will point to a different object
+        // afterwards, which is a removal of the old handle as far as the
+        // owner's records are concerned: same rules as any removal (unadopt
+        // first where the discipline of the mode demands it)
+        crate::interp::remove_slot(o, j, false, true);
+    } else {
+        // in place or moved to a new allocation (the library purges the records
+        // of the allocation it gives up)
+        let node = crate::interp::node_of(o);
+        let lr = node.slots.borrow_mut().remove(j);
+        lr.owner.set(NONE);
+        wd.model.borrow_mut().objs[o as usize].slots.remove(j);
+        wd.model.borrow_mut().roots.push(t);
+        wd.roots.borrow_mut().push(lr);
+    }
+    let i = wd.roots.borrow().len() - 1;
+    label(lab::MAKEMUT_STORED);
+    struct Back(Oid, usize, usize, &'static Node);
+    impl Drop for Back {
+        fn drop(&mut self) {
+            // also on the unwind path (a destructor panicked inside make_mut)
+            let wd = w();
+            let (o, j, i, node) = (self.0, self.1, self.2, self.3);
+            let n = wd.roots.borrow().len();
+            if n == 0 || wd.model.borrow().objs[o as usize].st != St::Alive {
+                return;
+            }
+            let k = i.min(n - 1);
+            let lr = wd.roots.borrow_mut().remove(k);
+            let t2 = wd.model.borrow_mut().roots.remove(k);
+            lr.owner.set(o);
+            let pos = j.min(node.slots.borrow().len());
+            node.slots.borrow_mut().insert(pos, lr);
+            wd.model.borrow_mut().objs[o as usize].slots.insert(pos, t2);
+        }
+    }
+    let _back = Back(o, j, i, owner_node);
+    make_mut_root(i);
 }
